@@ -70,6 +70,10 @@ _HELPERS = {
     # the first one ends on B, the second one later
     "fsa": ["match A()", 'start UtteranceBotAction(script="same") as $x', "match B()"],
     "fsb": ["match A()", 'start UtteranceBotAction(script="same") as $y', "match C()", "match B()"],
+    # two flows that share one action (as above) and then both send an event OF THAT ACTION on the same event: the second conflict is
+    # between heads that already hold the same action (it must stay registered)
+    "fsc": ["match A()", 'start UtteranceBotAction(script="same2") as $x', "match B()", "send $x.Stop()", "match C()"],
+    "fsd": ["match A()", 'start UtteranceBotAction(script="same2") as $y', "match B()", "send $y.Stop()", "match C()", "match A()"],
 }
 
 # statement blocks for the body of `main` (lines are relative to the body indentation)
@@ -121,6 +125,7 @@ _BLOCKS = {
     "abort": ["abort"],
     "return": ["return"],
     "shared": ["start fsa and fsb"],
+    "sharedstop": ["start fsc and fsd"],
 }
 
 _LIB_PROGRAMS = [
@@ -199,7 +204,7 @@ _CURATED = [
     (["while", "send"], True), (["whilebreak", "m1"], False), (["if", "awaitf"], False), (["startf", "stop", "m1"], True),
     (["actb", "finish", "mor"], False), (["orflowev", "m1"], True), (["startwhen", "mor"], False), (["startstart", "mor"], False),
     (["actf", "actab", "m1"], False), (["actf", "m1", "send"], False), (["whendup", "m1"], False), (["mdup", "send"], True),
-    (["whenand", "m1"], False), (["shared", "mor3"], True), (["actf", "actand", "m1", "send"], True), (["mor3", "abort"], False), (["mor", "return"], False), (["awaitc", "mor"], False),
+    (["whenand", "m1"], False), (["shared", "mor3"], True), (["sharedstop", "mor3"], True), (["actf", "actand", "m1", "send"], True), (["mor3", "abort"], False), (["mor", "return"], False), (["awaitc", "mor"], False),
 ]
 
 
